@@ -13,8 +13,9 @@ Any other departure from the ordered-map behaviour (a wrong Get, Delete result
 or traversal, a Size off by any other amount, a Size that is right where the
 defect would make it wrong) does not match and is reported as a VIOLATION.
 Wire format: coq/theories/C04_Wire.v (comparator modes 0 ascending, 2/3
-ascending/descending over the "extreme" keys ext_key(k), anything else
-descending; the observation carries wire keys in every mode)."""
+ascending/descending over the "extreme" keys ext_key(k), 4/5 and 6/7
+ascending/descending at the string / named-string+struct instances, anything
+else descending; the observation carries wire keys in every mode)."""
 
 
 def _ext_key(k):
@@ -30,7 +31,7 @@ def _c04_expected(inp):
     if not inp or (len(inp) - 1) % 3 != 0:
         return None
     mode = inp[0]
-    desc = mode not in (0, 2)
+    desc = mode not in (0, 2, 4, 6)
     order = _ext_key if mode in (2, 3) else (lambda k: k)
     m = {}
     fails = 0
